@@ -10,7 +10,10 @@ STR_LITS = ['', 'x', 'ab', ' ', 'a,b', 'a)b', '(', 'x, y', "it's", 'q"t', '[1]',
 LIKE_PATS = ['%', 'a%', '%b', '_', 'a_', '%a%', 'ab', '_%', '1%', '%.%', 'x|y', '']
 
 
-def gen_table(rng, max_rows=6, max_cols=4, ragged_p=0.25, none_p=0.08, cells=None, min_rows=0, wide_p=0.04, min_cols=1):
+INT_CELLS = [0, 1, 2, 3, 7, 10, 12, 1, 2]
+
+
+def gen_table(rng, max_rows=6, max_cols=4, ragged_p=0.25, none_p=0.08, cells=None, min_rows=0, wide_p=0.04, min_cols=1, int_col_p=0.1):
     cells = cells or (CELLS if rng.random() < 0.5 else SMALL_CELLS)
     n = rng.randrange(min_rows, max_rows + 1)
     if rng.random() < 0.04:
@@ -20,6 +23,8 @@ def gen_table(rng, max_rows=6, max_cols=4, ragged_p=0.25, none_p=0.08, cells=Non
         w = 12
     ragged = rng.random() < ragged_p
     with_none = rng.random() < 0.3
+    # list / pandas / sqlite sources deliver native numbers: some columns hold (non-negative) ints instead of strings
+    int_cols = set(j for j in range(w + 2) if rng.random() < int_col_p)
     t = []
     for _ in range(n):
         ww = w
@@ -29,6 +34,8 @@ def gen_table(rng, max_rows=6, max_cols=4, ragged_p=0.25, none_p=0.08, cells=Non
         for _j in range(ww):
             if with_none and rng.random() < none_p:
                 rec.append(None)
+            elif _j in int_cols:
+                rec.append(rng.choice(INT_CELLS))
             else:
                 rec.append(rng.choice(cells))
         t.append(rec)
@@ -74,12 +81,16 @@ class G(object):
         t = self.A if table == 'a' else self.B
         if table == 'b' and self.left_join:
             return 'opt'
-        for r in t:
-            if len(r) <= j or not isinstance(r[j], str):
-                return 'opt'
         if j >= (self.wa if table == 'a' else self.wb) and t:
             return 'opt'
-        return 'str'
+        kinds = set()
+        for r in t:
+            if len(r) <= j or r[j] is None or isinstance(r[j], bool):
+                return 'opt'
+            kinds.add('str' if isinstance(r[j], str) else 'int' if isinstance(r[j], int) else 'other')
+        if kinds == {'int'}:
+            return 'int'
+        return 'str' if kinds <= {'str'} else 'opt'
 
     def cols(self, table, typ):
         w = self.wa if table == 'a' else self.wb
@@ -130,6 +141,10 @@ class G(object):
         if d <= 0 or r < 0.4:
             c = self.rng.random()
             if c < 0.35:
+                ints = [('a', j) for j in self.cols('a', 'int')] + ([('b', j) for j in self.cols('b', 'int')] if self.use_b and self.B is not None else [])
+                if ints and self.rng.random() < 0.7:
+                    table, j = self.rng.choice(ints)
+                    return ['field', table, j, self.spelling(table, j)]
                 return ['int', self.rng.randrange(0, 13)]
             if c < 0.65:
                 return ['NR']
@@ -161,7 +176,8 @@ class G(object):
             if f is not None:
                 if self.rng.random() < 0.5:
                     return ['isnone', f]
-                return ['cmp', self.rng.choice(['==', '!=']), f, self.strlit()]
+                # a field that may hold None or a number: strict (in)equality, which is what Python's == means (JS == would coerce 0 == '')
+                return ['cmp', self.rng.choice(['===', '!==']), f, self.strlit()]
             return ['cmp', '==', self.e_str(0), self.strlit()]
         if r < 0.7:
             return ['and', self.e_bool(d - 1), self.e_bool(d - 1)]
